@@ -408,6 +408,9 @@ func RunCase(cfg *Config, slotIDs []string, ops []Op, trace bool, opt *SimOption
 	s := NewSim(cfg, o)
 	s.Run(ops)
 	s.finalChecks()
+	if o.Finish != nil {
+		o.Finish(s)
+	}
 	res := &CaseResult{Findings: s.M.Findings, Counts: s.M.Counts, Incon: s.Incon, Trace: s.Trace, Ops: ops, Cfg: cfg, SlotIDs: slotIDs}
 	s.Close()
 	return res
